@@ -18,6 +18,7 @@ import (
 	"runtime"
 	"strconv"
 	"strings"
+	"sync"
 	"sync/atomic"
 	"time"
 
@@ -40,9 +41,15 @@ type nodeD struct {
 	Kind string `json:"kind"`         // "show" (one parameter input) | "join" (2-3 string inputs) | "fshow": a loader that FAILS
 	//                                   (returns "", error) for int values divisible by 3, followed by a node that falls back to the raw parameter
 	//                                   | "pshow": a show node whose processor PANICS (integer division by zero) for int values divisible by 4
+	//                                   | "multi": ONE node with 2-3 int parameters Ps as its DIRECT dependencies (lists them in order)
 	P    int    `json:"p,omitempty"`  // show: parameter index
 	In   []int  `json:"in,omitempty"` // join: indices of earlier nodes
+	Ps   []int  `json:"ps,omitempty"` // multi: parameter indices
 }
+
+// isText: producers whose artifact is the text of node Node ("gated": served through an artifact whose Write can be
+// held at a gate -- a slow serialisation)
+func isText(kind string) bool { return kind == "" || kind == "gated" }
 type prodD struct {
 	Name string `json:"name"`
 	Kind string `json:"kind,omitempty"` // "" = text producer on node Node; "bin" = basics.Binary on file parameter P; "img" = basics.ImageNode on image parameter P;
@@ -67,6 +74,9 @@ func (s *shapeD) lists(n int) []int {
 	if d.Kind == "show" || d.Kind == "fshow" || d.Kind == "pshow" {
 		return []int{d.P}
 	}
+	if d.Kind == "multi" {
+		return append([]int{}, d.Ps...)
+	}
 	var out []int
 	for _, c := range d.In {
 		out = append(out, s.lists(c)...)
@@ -86,7 +96,7 @@ func (s *shapeD) panicParams(n int, acc map[int]bool) {
 
 // prodBad: the (parameter, value) pairs for which evaluating producer k panics
 func (s *shapeD) prodBad(k int) [][2]int {
-	if s.Prods[k].Kind != "" {
+	if !isText(s.Prods[k].Kind) {
 		return nil
 	}
 	acc := map[int]bool{}
@@ -110,14 +120,14 @@ func (s *shapeD) prodLists(k int) []int {
 		}
 		return out
 	}
-	if s.Prods[k].Kind != "" {
+	if !isText(s.Prods[k].Kind) {
 		return []int{s.Prods[k].P}
 	}
 	return s.lists(s.Prods[k].Node)
 }
 func (s *shapeD) depth(n int) int {
 	d := s.Nodes[n]
-	if d.Kind == "show" || d.Kind == "fshow" || d.Kind == "pshow" {
+	if d.Kind == "show" || d.Kind == "fshow" || d.Kind == "pshow" || d.Kind == "multi" {
 		return 1
 	}
 	m := 0
@@ -155,6 +165,7 @@ func (j *jit) pause() {
 // ---------------------------------------------------------------- node types
 type cfg struct {
 	idx      int
+	idxs     []int // multi nodes: the parameter indices listed
 	j        *jit
 	inflight atomic.Int32  // clients currently inside this node's Process
 	overlaps *atomic.Int64 // graph-wide: how often a client entered a Process another client was already inside
@@ -611,6 +622,117 @@ func decodeGLB(b []byte) ([]int, bool) {
 	return out, true
 }
 
+// Multi2Data / Multi3Data: ONE node whose direct dependencies are 2-3 int parameters (a parameter's version grows
+// by one per accepted update, so the recorded dependency versions of such a node move by arbitrary amounts
+// between two evaluations)
+type Multi2Data struct {
+	c *cfg
+	A nodes.NodeOutput[int]
+	B nodes.NodeOutput[int]
+}
+
+func (d Multi2Data) Process() (string, error) {
+	d.c.enter()
+	defer d.c.leave()
+	a := d.A.Value()
+	d.c.j.pause()
+	b := d.B.Value()
+	return fmt.Sprintf("p%d=%d;p%d=%d;", d.c.idxs[0], a, d.c.idxs[1], b), nil
+}
+
+type Multi3Data struct {
+	c *cfg
+	A nodes.NodeOutput[int]
+	B nodes.NodeOutput[int]
+	C nodes.NodeOutput[int]
+}
+
+func (d Multi3Data) Process() (string, error) {
+	d.c.enter()
+	defer d.c.leave()
+	a := d.A.Value()
+	d.c.j.pause()
+	b := d.B.Value()
+	d.c.j.pause()
+	c := d.C.Value()
+	return fmt.Sprintf("p%d=%d;p%d=%d;p%d=%d;", d.c.idxs[0], a, d.c.idxs[1], b, d.c.idxs[2], c), nil
+}
+
+// ---- a gate in front of an artifact's serialisation: normally open; the serialisation-overlap scenario arms it so
+// that the next Write calls wait (bounded) until the harness releases them -- a slow download in progress
+type gate struct {
+	mu      sync.Mutex
+	armed   int
+	entered chan struct{}
+	release chan struct{}
+	maxWait time.Duration
+}
+
+func (g *gate) arm(n int, maxWait time.Duration) {
+	g.mu.Lock()
+	defer g.mu.Unlock()
+	g.armed, g.entered, g.release, g.maxWait = n, make(chan struct{}, n), make(chan struct{}), maxWait
+}
+func (g *gate) open() {
+	g.mu.Lock()
+	defer g.mu.Unlock()
+	if g.release != nil {
+		close(g.release)
+		g.release = nil
+	}
+	g.armed = 0
+}
+func (g *gate) pass() {
+	if g == nil {
+		return
+	}
+	g.mu.Lock()
+	if g.armed <= 0 || g.release == nil {
+		g.mu.Unlock()
+		return
+	}
+	g.armed--
+	e, r, mw := g.entered, g.release, g.maxWait
+	g.mu.Unlock()
+	e <- struct{}{}
+	select {
+	case <-r:
+	case <-time.After(mw):
+	}
+}
+
+// GatedArtifact: a text artifact (an immutable string) whose serialisation passes the gate and is written in pieces
+type GatedArtifact struct {
+	Txt string
+	g   *gate
+	j   *jit
+}
+
+func (a GatedArtifact) Write(w io.Writer) error {
+	a.g.pass()
+	half := len(a.Txt) / 2
+	if _, err := io.WriteString(w, a.Txt[:half]); err != nil {
+		return err
+	}
+	a.j.pause()
+	_, err := io.WriteString(w, a.Txt[half:])
+	return err
+}
+func (GatedArtifact) Mime() string { return "text/plain" }
+
+type GatedTextData struct {
+	c  *cfg
+	g  *gate
+	In nodes.NodeOutput[string]
+}
+
+func (d GatedTextData) Process() (artifact.Artifact, error) {
+	d.c.enter()
+	defer d.c.leave()
+	d.c.j.pause()
+	return GatedArtifact{Txt: d.In.Value(), g: d.g, j: d.c.j}, nil
+}
+
 type Join2Data struct {
 	c *cfg
 	A nodes.NodeOutput[string]
@@ -661,6 +783,8 @@ type liveGraph struct {
 	pr    probe
 	// responses of earlier windows that are backed by slices (binary / ints artifacts, file ParameterData)
 	retained []*rec
+	gate     gate     // in front of the serialisation of "gated" producers
+	srv      *httpSrv // non-nil: every call goes through the edit server's HTTP handlers (transport.go)
 }
 
 func encodeVal(typ string, v int, enc string) []byte {
@@ -732,20 +856,34 @@ func decodeVal(typ string, msg []byte) (int, bool) {
 
 func build(s *shapeD, init []int, j *jit) *liveGraph { return buildCLI(s, init, j, nil, "") }
 
+// buildHTTP: the same graph behind the repository's edit server (generator.App + AppServer handlers, transport.go);
+// nil when the server could not be started
+func buildHTTP(s *shapeD, init []int, j *jit) *liveGraph { return buildX(s, init, j, nil, "", true) }
+
 // buildCLI: the parameters in cli (File / Image) get their value from a command line flag naming a file in dir
 // (flag parsed, nothing read yet: Value() loads the file lazily on its FIRST read)
 func buildCLI(s *shapeD, init []int, j *jit, cli []int, dir string) *liveGraph {
+	return buildX(s, init, j, cli, dir, false)
+}
+
+func buildX(s *shapeD, init []int, j *jit, cli []int, dir string, viaHTTP bool) *liveGraph {
 	isCLI := map[int]bool{}
 	for _, p := range cli {
 		isCLI[p] = true
 	}
-	g := &liveGraph{shape: s, inst: graph.New(&refutil.TypeFactory{})}
+	g := &liveGraph{shape: s}
+	files := map[string]nodes.NodeOutput[artifact.Artifact]{}
+	addProducer := func(name string, out nodes.NodeOutput[artifact.Artifact]) { files[name] = out }
+	if !viaHTTP {
+		g.inst = graph.New(&refutil.TypeFactory{})
+		addProducer = g.inst.AddProducer
+	}
 	g.pr.overlaps = &g.over
 	ints := map[int]nodes.NodeOutput[int]{}
 	floats := map[int]nodes.NodeOutput[float64]{}
 	strs := map[int]nodes.NodeOutput[string]{}
 	bools := map[int]nodes.NodeOutput[bool]{}
-	files := map[int]nodes.NodeOutput[[]byte]{}
+	fileOuts := map[int]nodes.NodeOutput[[]byte]{}
 	intss := map[int]nodes.NodeOutput[[]int]{}
 	images := map[int]nodes.NodeOutput[image.Image]{}
 	for p, t := range s.PTypes {
@@ -776,7 +914,7 @@ func buildCLI(s *shapeD, init []int, j *jit, cli []int, dir string) *liveGraph {
 			if isCLI[p] {
 				n.CLI = &parameter.CliConfig[string]{FlagName: name, Usage: "harness"}
 			}
-			files[p] = n.Out()
+			fileOuts[p] = n.Out()
 			g.par = append(g.par, liveParam{typ: t, node: n})
 		case "ints":
 			n := &parameter.Value[[]int]{Name: name, DefaultValue: intsPayload(init[p])}
@@ -808,7 +946,7 @@ func buildCLI(s *shapeD, init []int, j *jit, cli []int, dir string) *liveGraph {
 			case "bool":
 				outs[k] = (&nodes.Struct[string, ShowBoolData]{Data: ShowBoolData{c: c, In: bools[d.P]}}).Out()
 			case "file":
-				outs[k] = (&nodes.Struct[string, ShowFileData]{Data: ShowFileData{c: c, In: files[d.P]}}).Out()
+				outs[k] = (&nodes.Struct[string, ShowFileData]{Data: ShowFileData{c: c, In: fileOuts[d.P]}}).Out()
 			case "ints":
 				outs[k] = (&nodes.Struct[string, ShowIntsData]{Data: ShowIntsData{c: c, In: intss[d.P]}}).Out()
 			case "image":
@@ -826,6 +964,21 @@ func buildCLI(s *shapeD, init []int, j *jit, cli []int, dir string) *liveGraph {
 			f := (&nodes.Struct[string, FailShowData]{Data: FailShowData{c: c, In: ints[d.P]}}).Out()
 			c2 := &cfg{idx: d.P, j: j, overlaps: &g.over, pr: &g.pr}
 			outs[k] = (&nodes.Struct[string, MarkData]{Data: MarkData{c: c2, In: f, Raw: ints[d.P]}}).Out()
+		case "multi":
+			c.idxs = d.Ps
+			for _, q := range d.Ps {
+				if ints[q] == nil {
+					panic("multi needs int parameters")
+				}
+			}
+			switch len(d.Ps) {
+			case 2:
+				outs[k] = (&nodes.Struct[string, Multi2Data]{Data: Multi2Data{c: c, A: ints[d.Ps[0]], B: ints[d.Ps[1]]}}).Out()
+			case 3:
+				outs[k] = (&nodes.Struct[string, Multi3Data]{Data: Multi3Data{c: c, A: ints[d.Ps[0]], B: ints[d.Ps[1]], C: ints[d.Ps[2]]}}).Out()
+			default:
+				panic("multi arity")
+			}
 		case "join":
 			switch len(d.In) {
 			case 2:
@@ -842,14 +995,17 @@ func buildCLI(s *shapeD, init []int, j *jit, cli []int, dir string) *liveGraph {
 	for k, p := range s.Prods {
 		switch p.Kind {
 		case "":
-			g.inst.AddProducer(p.Name, basics.NewTextNode(outs[p.Node]))
+			addProducer(p.Name, basics.NewTextNode(outs[p.Node]))
+		case "gated":
+			c := &cfg{idx: -1, j: j, overlaps: &g.over, pr: &g.pr}
+			addProducer(p.Name, (&nodes.Struct[artifact.Artifact, GatedTextData]{Data: GatedTextData{c: c, g: &g.gate, In: outs[p.Node]}}).Out())
 		case "bin":
-			g.inst.AddProducer(p.Name, basics.NewBinaryNode(files[p.P]))
+			addProducer(p.Name, basics.NewBinaryNode(fileOuts[p.P]))
 		case "img":
-			g.inst.AddProducer(p.Name, basics.NewImageNode(images[p.P]))
+			addProducer(p.Name, basics.NewImageNode(images[p.P]))
 		case "ints":
 			c := &cfg{idx: p.P, j: j, overlaps: &g.over, pr: &g.pr}
-			g.inst.AddProducer(p.Name, (&nodes.Struct[artifact.Artifact, IntsArtifactData]{Data: IntsArtifactData{c: c, In: intss[p.P]}}).Out())
+			addProducer(p.Name, (&nodes.Struct[artifact.Artifact, IntsArtifactData]{Data: IntsArtifactData{c: c, In: intss[p.P]}}).Out())
 		case "gltf":
 			// the repository's own scene producer: Models x gltf.ModelNode sharing one mesh node and one material node
 			mesh := (&nodes.Struct[modeling.Mesh, TriMeshData]{Data: TriMeshData{c: &cfg{idx: p.P, j: j, overlaps: &g.over, pr: &g.pr}, N: ints[p.P]}}).Out()
@@ -859,12 +1015,31 @@ func buildCLI(s *shapeD, init []int, j *jit, cli []int, dir string) *liveGraph {
 			for m := 0; m < p.Models; m++ {
 				models = append(models, (&gltf.ModelNode{Data: gltf.ModelNodeData{Mesh: mesh, Material: mat}}).Out())
 			}
-			g.inst.AddProducer(p.Name, (&gltf.ArtifactNode{Data: gltf.ArtifactNodeData{Models: models}}).Out())
+			addProducer(p.Name, (&gltf.ArtifactNode{Data: gltf.ArtifactNodeData{Models: models}}).Out())
 		default:
 			panic("producer kind " + p.Kind)
 		}
 		g.prodF = append(g.prodF, s.prodLists(k))
 		g.prodB = append(g.prodB, s.prodBad(k))
+	}
+	if viaHTTP {
+		srv, err := startServer(files)
+		if err != nil {
+			return nil
+		}
+		g.srv = srv
+		ids, err := srv.paramIDs()
+		if err != nil {
+			return nil
+		}
+		for p := range g.par {
+			id, ok := ids[fmt.Sprintf("p%d", p)]
+			if !ok {
+				panic(fmt.Sprintf("parameter p%d is not in the served schema", p))
+			}
+			g.par[p].id = id
+		}
+		return g
 	}
 	if len(cli) > 0 {
 		fs := flag.NewFlagSet("cold", flag.ContinueOnError)
@@ -963,7 +1138,7 @@ func fixedShapes() []*shapeD {
 				{Kind: "show", P: 0},            // 8 second reader of p0
 				{Kind: "join", In: []int{3, 8}}, // 9 -> c.txt  [3,0]
 			},
-			Prods: []prodD{{Name: "a.txt", Node: 6}, {Name: "b.txt", Node: 7}, {Name: "c.txt", Node: 9}},
+			Prods: []prodD{{Name: "a.txt", Node: 6}, {Name: "b.txt", Node: 7}, {Name: "c.txt", Node: 9}, {Name: "slow.txt", Kind: "gated", Node: 7}},
 		},
 		{ // the same parameters through two different paths: [0,1,1,0]
 			Name: "two-paths", PTypes: []string{"int", "int", "float", "string", "int"},
@@ -979,7 +1154,7 @@ func fixedShapes() []*shapeD {
 				{Kind: "join", In: []int{4, 10}},   // 11 -> b.txt [0,1,2,3,4]... trimmed below
 				{Kind: "join", In: []int{9, 0}},    // 12 -> c.txt [4,0]
 			},
-			Prods: []prodD{{Name: "a.txt", Node: 6}, {Name: "b.txt", Node: 10}, {Name: "c.txt", Node: 12}, {Name: "d.txt", Node: 11}},
+			Prods: []prodD{{Name: "a.txt", Node: 6}, {Name: "b.txt", Node: 10}, {Name: "c.txt", Node: 12}, {Name: "d.txt", Node: 11}, {Name: "slow.txt", Kind: "gated", Node: 11}},
 		},
 		{ // three-input joins, six parameters
 			Name: "wide", PTypes: []string{"int", "float", "string", "bool", "int", "float"},
@@ -992,7 +1167,7 @@ func fixedShapes() []*shapeD {
 				{Kind: "join", In: []int{8, 0}},    // 9 -> b.txt [4,5,0]
 				{Kind: "join", In: []int{2, 8}},    // 10 -> c.txt [2,4,5]
 			},
-			Prods: []prodD{{Name: "a.txt", Node: 7}, {Name: "b.txt", Node: 9}, {Name: "c.txt", Node: 10}},
+			Prods: []prodD{{Name: "a.txt", Node: 7}, {Name: "b.txt", Node: 9}, {Name: "c.txt", Node: 10}, {Name: "slow.txt", Kind: "gated", Node: 9}},
 		},
 		{ // loaders that fail for some values (behind a shared join) and the repository's glTF scene producer
 			Name: "scene", PTypes: []string{"int", "float", "int", "string", "int"},
@@ -1003,7 +1178,7 @@ func fixedShapes() []*shapeD {
 				{Kind: "join", In: []int{4, 5, 1}}, // 7 -> b.txt [4,0,3,1]
 			},
 			Prods: []prodD{{Name: "a.txt", Node: 6}, {Name: "b.txt", Node: 7}, {Name: "scene.glb", Kind: "gltf", P: 4, PB: 1, Models: 3},
-				{Name: "pair.glb", Kind: "gltf", P: 0, PB: 1, Models: 2}},
+				{Name: "pair.glb", Kind: "gltf", P: 0, PB: 1, Models: 2}, {Name: "slow.txt", Kind: "gated", Node: 7}},
 		},
 		{ // a node that PANICS for some values below a shared join; one producer is not affected
 			Name: "panics", PTypes: []string{"int", "int", "float", "string"},
@@ -1014,7 +1189,7 @@ func fixedShapes() []*shapeD {
 				{Kind: "join", In: []int{3, 4}}, // 6 -> b.txt [3,1,0]
 				{Kind: "join", In: []int{1, 2}}, // 7 -> c.txt [1,2]
 			},
-			Prods: []prodD{{Name: "a.txt", Node: 5}, {Name: "b.txt", Node: 6}, {Name: "c.txt", Node: 7}},
+			Prods: []prodD{{Name: "a.txt", Node: 5}, {Name: "b.txt", Node: 6}, {Name: "c.txt", Node: 7}, {Name: "slow.txt", Kind: "gated", Node: 6}},
 		},
 		{ // image parameters (uploads in several encodings), shown in text artifacts and served by basics.ImageNode
 			Name: "images", PTypes: []string{"image", "probe", "image", "string"},
@@ -1024,7 +1199,8 @@ func fixedShapes() []*shapeD {
 				{Kind: "join", In: []int{4, 2}}, // 5 -> a.txt [0,1,2]
 				{Kind: "join", In: []int{3, 4}}, // 6 -> b.txt [3,0,1]
 			},
-			Prods: []prodD{{Name: "a.txt", Node: 5}, {Name: "b.txt", Node: 6}, {Name: "pic.png", Kind: "img", P: 0}, {Name: "pic2.png", Kind: "img", P: 2}},
+			Prods: []prodD{{Name: "a.txt", Node: 5}, {Name: "b.txt", Node: 6}, {Name: "pic.png", Kind: "img", P: 0}, {Name: "pic2.png", Kind: "img", P: 2},
+				{Name: "slow.txt", Kind: "gated", Node: 5}},
 		},
 		{ // slice-valued parameters: an uploaded file feeding a binary artifact and a text artifact, an int slice
 			Name: "slices", PTypes: []string{"file", "probe", "ints", "string", "file"},
@@ -1035,7 +1211,23 @@ func fixedShapes() []*shapeD {
 				{Kind: "join", In: []int{3, 4, 5}}, // 7 -> more.txt [3,4,0,1]
 			},
 			Prods: []prodD{{Name: "model.bin", Kind: "bin", P: 0}, {Name: "info.txt", Node: 6}, {Name: "more.txt", Node: 7},
-				{Name: "ints.json", Kind: "ints", P: 2}, {Name: "other.bin", Kind: "bin", P: 4}},
+				{Name: "ints.json", Kind: "ints", P: 2}, {Name: "other.bin", Kind: "bin", P: 4}, {Name: "slow.txt", Kind: "gated", Node: 6}},
+		},
+		{ // nodes with 2-3 parameters as DIRECT dependencies (their recorded dependency versions move by one per
+			// update), shared by several producers
+			Name: "multi-dep", PTypes: []string{"int", "int", "int", "probe", "float"},
+			Nodes: []nodeD{
+				{Kind: "multi", Ps: []int{0, 1}},    // 0 -> a.txt [0,1]
+				{Kind: "multi", Ps: []int{2, 0, 1}}, // 1
+				{Kind: "show", P: 3},                // 2
+				{Kind: "show", P: 4},                // 3
+				{Kind: "join", In: []int{0, 2}},     // 4 -> b.txt [0,1,3]
+				{Kind: "join", In: []int{1, 3}},     // 5 -> c.txt [2,0,1,4]
+				{Kind: "multi", Ps: []int{1, 3}},    // 6 -> d.txt [1,3]
+				{Kind: "join", In: []int{0, 6}},     // 7 -> e.txt [0,1,1,3]
+			},
+			Prods: []prodD{{Name: "a.txt", Node: 0}, {Name: "b.txt", Node: 4}, {Name: "c.txt", Node: 5}, {Name: "d.txt", Node: 6},
+				{Name: "e.txt", Node: 7}, {Name: "slow.txt", Kind: "gated", Node: 5}},
 		},
 	}
 }
@@ -1079,6 +1271,28 @@ func randomShape(r *hx.Rng, k int) *shapeD {
 			}
 		}
 		for want > 0 {
+			// a leaf with several int parameters as direct dependencies
+			var intish []int
+			for p, t := range s.PTypes {
+				if t == "int" || t == "probe" {
+					intish = append(intish, p)
+				}
+			}
+			if want >= 2 && len(intish) >= 2 && r.Chance(1, 4) {
+				ar := 2
+				if want >= 3 && len(intish) >= 3 && r.Bool() {
+					ar = 3
+				}
+				var ps []int
+				for _, i := range r.Perm(len(intish))[:ar] {
+					ps = append(ps, intish[i])
+					used[intish[i]] = true
+				}
+				s.Nodes = append(s.Nodes, nodeD{Kind: "multi", Ps: ps})
+				leaves = append(leaves, len(s.Nodes)-1)
+				want -= ar
+				continue
+			}
 			p := r.Intn(P)
 			// prefer parameters not used yet
 			for t := 0; t < 3 && used[p]; t++ {
@@ -1134,6 +1348,10 @@ func randomShape(r *hx.Rng, k int) *shapeD {
 	}
 	if len(rest) == 1 {
 		s.Prods = append(s.Prods, prodD{Name: "rest.txt", Node: rest[0]})
+	}
+	// a producer whose serialisation can be held at the gate (text of an existing producer's node)
+	if r.Chance(2, 3) {
+		s.Prods = append(s.Prods, prodD{Name: "slow.txt", Kind: "gated", Node: s.Prods[r.Intn(len(s.Prods))].Node})
 	}
 	// a glTF scene over an int and a float parameter
 	pi, pf := -1, -1
